@@ -148,9 +148,9 @@ Lemma extract_servable e o :
   extract e o =
   if servable_b (e, o) then Some (suitable (o_nf o) (e_meths e) []) else None.
 Proof.
-  unfold extract, servable_b. simpl.
-  destruct (e_tname e) as [|c r]; simpl; [reflexivity|].
-  destruct ((65 <=? c) && (c <=? 90)); simpl; [|reflexivity].
+  unfold extract, servable_b. cbn [fst snd].
+  destruct (e_tname e) as [|c r]; [reflexivity|]. cbn [is_empty].
+  destruct (is_exported_name (c :: r)); cbn [negb andb]; [|reflexivity].
   rewrite suitable_empty. simpl.
   destruct (existsb shape_b (e_meths e)); reflexivity.
 Qed.
